@@ -1,4 +1,5 @@
 """C18 — random, distribution and selection primitives honour their contracts."""
+import os
 import math
 import common, lib
 from comp import Comp
@@ -16,6 +17,44 @@ def check(ctx):
               'high can be returned after rounding (NumPy documents this): informational'])
     drv = common.Driver()
     try:
+        # the value for an exponent does not depend on which exponents were used before: fixed sequences that return to an
+        # earlier exponent, in this process (its first Levy calls) and in a fresh interpreter (where the sequence's first
+        # exponent is the first the process ever sees)
+        import subprocess as _sp, json as _json
+        def _ref(beta, g1, g2):
+            num = math.gamma(1 + beta) * math.sin(math.pi * beta / 2)
+            den = math.gamma((1 + beta) / 2) * beta * (2 ** ((beta - 1) / 2))
+            return g1 * ((num / den) ** (1 / beta)) / np.fabs(g2) ** (1 / beta)
+        for seq in ([1.5, 0.8, 1.5, 0.8, 2.0, 1.5], [0.3, 0.3 + 1e-12, 0.3, 1.0, 0.3]):
+            rp = dict(how='levy-sequence', betas=seq)
+            for q, beta in enumerate(seq):
+                np.random.seed(77 + q)
+                step = d.generate_levy_distribution(beta, 4)
+                np.random.seed(77 + q)
+                g1 = np.random.normal(0.0, 1.0, 4)
+                g2 = np.random.normal(0.0, 1.0, 4)
+                if not np.allclose(_ref(beta, g1, g2), step, rtol=1e-12, atol=0, equal_nan=True):
+                    C.issue('levy-not-mantegna', 'oracle', dict(rp, at=q), got=step.tolist(), reference=_ref(beta, g1, g2).tolist())
+                    break
+            script = ('import json, sys, logging\nlogging.disable(logging.CRITICAL)\nimport numpy as np\n'
+                      'import opytimizer.math.distribution as d\nout = []\n'
+                      f'for q, beta in enumerate({seq!r}):\n    np.random.seed(77 + q)\n    out.append([float(x).hex() for x in d.generate_levy_distribution(beta, 4)])\n'
+                      'print("RESULT " + json.dumps(out))\n')
+            pr = _sp.run(['/venv/bin/python', '-c', script], capture_output=True, text=True, cwd=common.scratch_dir(),
+                         env=dict(os.environ, PYTHONPATH=common.REPO), timeout=300)
+            line = next((l for l in pr.stdout.split('\n') if l.startswith('RESULT ')), None)
+            if line is None:
+                C.issue('levy-fresh-process-failed', 'correspondence', rp, err=pr.stderr[-200:])
+            else:
+                for q, (beta, hexes) in enumerate(zip(seq, _json.loads(line[7:]))):
+                    np.random.seed(77 + q)
+                    g1 = np.random.normal(0.0, 1.0, 4)
+                    g2 = np.random.normal(0.0, 1.0, 4)
+                    got = np.array([float.fromhex(h_) for h_ in hexes])
+                    if not np.allclose(_ref(beta, g1, g2), got, rtol=1e-12, atol=0, equal_nan=True):
+                        C.issue('levy-not-mantegna', 'oracle', dict(rp, at=q, fresh_process=True), got=got.tolist(), reference=_ref(beta, g1, g2).tolist())
+                        break
+            C.case(key=('levy-sequence', tuple(seq)), nontrivial=True, kind='levy-sequence')
         reps = 120 if ctx['tier'] == 'quick' else 2000
         for k in range(reps):
             seed = C.rng.randrange(1 << 30)
